@@ -383,4 +383,345 @@ theorem abs_unregister (r : Registry) (p : Nat) (params : List Name) :
       · simp only [hc, ne_eq, not_false_eq_true, if_true]
         exact abs_unregisterChan r p tc hc ht
 
+
+/-! ### PING and the admin calls -/
+
+theorem abs_ping (r : Registry) (p : Nat) (now : Int) : abs (ping r p now) = (abs r).ping p now := by
+  unfold ping Spec.ping
+  cases h : mget r.peers p with
+  | none =>
+    apply Spec.ext' <;> try rfl
+    funext q
+    simp only [abs]
+    by_cases hq : q = p
+    · subst hq; simp [h]
+    · simp [hq]
+  | some pr =>
+    apply Spec.ext' <;> try rfl
+    funext q
+    simp only [abs, mget_mset]
+    by_cases hq : q = p
+    · subst hq; simp [h]
+    · have : ¬ p = q := fun x => hq x.symm
+      simp [hq, this]
+
+theorem abs_createTopic (r : Registry) (a : HttpArgs) :
+    abs (createTopic r a).1 = (abs r).createTopic a := by
+  unfold createTopic Spec.createTopic
+  cases a.badQuery with
+  | true => rfl
+  | false =>
+    simp only [Bool.false_eq_true, if_false]
+    cases a.topic with
+    | none => rfl
+    | some t =>
+      simp only
+      cases validName t with
+      | false => rfl
+      | true =>
+        simp only [Bool.not_true, Bool.false_eq_true, if_false]
+        apply Spec.ext'
+        · funext t'; apply propext
+          simp only [abs, has_addRegistration, topicKey]; grind
+        · funext t' c; simp [abs, has_addRegistration, topicKey, chanKey]
+        · funext q t'; simp [abs, getP_addRegistration]
+        · funext q t' c; simp [abs, getP_addRegistration]
+        · funext q t' τ; simp [abs, getP_addRegistration]
+        · funext q; simp [abs, getP_addRegistration]
+        · rfl
+
+theorem abs_createChannel (r : Registry) (a : HttpArgs) :
+    abs (createChannel r a).1 = (abs r).createChannel a := by
+  unfold createChannel Spec.createChannel
+  cases a.badQuery with
+  | true => rfl
+  | false =>
+    simp only [Bool.false_eq_true, if_false]
+    cases getTopicChannelArgs a with
+    | error e => rfl
+    | ok tc =>
+      simp only
+      apply Spec.ext'
+      · funext t'; apply propext
+        simp only [abs, has_addRegistration, topicKey, chanKey]; grind
+      · funext t' c; apply propext
+        simp only [abs, has_addRegistration, topicKey, chanKey]; grind
+      · funext q t'; simp [abs, getP_addRegistration]
+      · funext q t' c; simp [abs, getP_addRegistration]
+      · funext q t' τ; simp [abs, getP_addRegistration]
+      · funext q; simp [abs, getP_addRegistration]
+      · rfl
+
+theorem getTopicChannelArgs_ok (a : HttpArgs) (tc : TopicChan) (h : getTopicChannelArgs a = .ok tc) :
+    validName tc.topic = true ∧ validName tc.chan = true := by
+  unfold getTopicChannelArgs at h
+  cases ht : a.topic with
+  | none => simp [ht] at h
+  | some t =>
+    cases hc : a.channel with
+    | none => simp only [ht, hc] at h; split at h <;> simp at h
+    | some c =>
+      simp only [ht, hc] at h
+      split at h
+      · simp at h
+      · split at h
+        · simp at h
+        · simp only [Except.ok.injEq] at h
+          subst h
+          grind
+
+theorem isMatch_exactKey (k : Key) (t c : Name) (ht : t ≠ star) (hc : c ≠ star) :
+    isMatch k .channel t c = true ↔ k = chanKey t c := by
+  apply isMatch_exact
+  simp [needFilter, ht, hc]
+
+theorem abs_deleteChannel (r : Registry) (a : HttpArgs) :
+    abs (deleteChannel r a).1 = (abs r).deleteChannel a := by
+  unfold deleteChannel Spec.deleteChannel
+  cases a.badQuery with
+  | true => rfl
+  | false =>
+    simp only [Bool.false_eq_true, if_false]
+    cases hg : getTopicChannelArgs a with
+    | error e => rfl
+    | ok tc =>
+      have hv := getTopicChannelArgs_ok a tc hg
+      have ht := validName_ne_star _ hv.1
+      have hc := validName_ne_star _ hv.2
+      have hm := fun k => isMatch_exactKey k tc.topic tc.chan ht hc
+      simp only
+      by_cases he : (findRegistrations r.db .channel tc.topic tc.chan).isEmpty = true
+      · -- 404: the channel is not known; nothing changes, and the spec step is the identity there
+        simp only [he, if_true]
+        have hno : has r.db (chanKey tc.topic tc.chan) = false := by
+          cases hh : has r.db (chanKey tc.topic tc.chan) with
+          | false => rfl
+          | true =>
+            have : chanKey tc.topic tc.chan ∈ findRegistrations r.db .channel tc.topic tc.chan := by
+              rw [mem_findRegistrations]; exact ⟨hh, (hm _).mpr rfl⟩
+            rw [List.isEmpty_iff] at he
+            rw [he] at this; simp at this
+        apply Spec.ext' <;> try rfl
+        · funext t c; apply propext
+          simp only [abs, chanKey] at hno ⊢
+          grind
+        · funext q t c; apply propext
+          have hh := has_of_getP r.db (chanKey t c) q
+          simp only [abs, chanKey] at hno hh ⊢
+          grind
+      · rw [if_neg he]
+        apply Spec.ext'
+        · funext t; apply propext
+          simp only [abs, has_removeRegistrations, mem_findRegistrations, hm, topicKey, chanKey]; grind
+        · funext t c; apply propext
+          simp only [abs, has_removeRegistrations, mem_findRegistrations, hm, topicKey, chanKey]; grind
+        · funext q t; apply propext
+          simp only [abs, getP_removeRegistrations, mem_findRegistrations, hm, topicKey, chanKey]; grind
+        · funext q t c; apply propext
+          have hh := has_of_getP r.db (chanKey t c) q
+          simp only [abs, getP_removeRegistrations, mem_findRegistrations, hm, topicKey, chanKey] at hh ⊢; grind
+        · funext q t τ; apply propext
+          simp only [abs, getP_removeRegistrations, mem_findRegistrations, hm, topicKey, chanKey]; grind
+        · funext q
+          simp only [abs, getP_removeRegistrations, mem_findRegistrations, hm, clientKey, chanKey]; grind
+        · rfl
+
+
+/-! ### /topic/delete and /topic/tombstone -/
+
+theorem getP_none_of_not_has (db : DB) (k : Key) (q : Nat) (h : has db k = false) : getP db k q = none := by
+  cases hg : getP db k q with
+  | none => rfl
+  | some _ =>
+    have := has_of_getP db k q (by simp [hg])
+    simp [this] at h
+
+theorem has_deleteTopicDB (db : DB) (t : Name) (k' : Key) :
+    has (deleteTopicDB db t) k' = true ↔
+      has db k' = true ∧ ¬ isMatch k' .channel t star = true ∧ ¬ isMatch k' .topic t [] = true := by
+  unfold deleteTopicDB
+  simp only [has_removeRegistrations, mem_findRegistrations, Bool.and_eq_true, Bool.not_eq_true',
+    decide_eq_false_iff_not, decide_eq_true_eq]
+  grind
+
+theorem getP_deleteTopicDB (db : DB) (t : Name) (k' : Key) (q : Nat) :
+    getP (deleteTopicDB db t) k' q =
+      if isMatch k' .channel t star = true ∨ isMatch k' .topic t [] = true then none else getP db k' q := by
+  unfold deleteTopicDB
+  simp only [getP_removeRegistrations, mem_findRegistrations, has_removeRegistrations,
+    Bool.and_eq_true, Bool.not_eq_true', decide_eq_false_iff_not, decide_eq_true_eq]
+  cases hh : has db k' with
+  | false =>
+    have := getP_none_of_not_has db k' q hh
+    simp [this]
+  | true =>
+    by_cases h1 : isMatch k' .channel t star = true <;> by_cases h2 : isMatch k' .topic t [] = true <;>
+      simp [h1, h2]
+
+theorem isMatch_topicKey_topic (t t' : Name) : isMatch (topicKey t') .topic t [] = true ↔ tmatch t t' := by
+  unfold isMatch topicKey tmatch
+  simp
+
+theorem isMatch_chanKey_chanStar (t t' c : Name) : isMatch (chanKey t' c) .channel t star = true ↔ tmatch t t' := by
+  unfold isMatch chanKey tmatch
+  simp
+
+theorem abs_deleteTopic (r : Registry) (a : HttpArgs) :
+    abs (deleteTopic r a).1 = (abs r).deleteTopic a := by
+  unfold deleteTopic Spec.deleteTopic
+  cases a.badQuery with
+  | true => rfl
+  | false =>
+    simp only [Bool.false_eq_true, if_false]
+    cases a.topic with
+    | none => rfl
+    | some t =>
+      simp only
+      have e1 : ∀ t', isMatch (topicKey t') .channel t star = false := by intro t'; simp [isMatch, topicKey]
+      have e2 : ∀ t' c, isMatch (chanKey t' c) .topic t [] = false := by intro t' c; simp [isMatch, chanKey]
+      have e3 : isMatch clientKey .topic t [] = false := by simp [isMatch, clientKey]
+      have e4 : isMatch clientKey .channel t star = false := by simp [isMatch, clientKey]
+      apply Spec.ext'
+      · funext t'; apply propext
+        have m1 := isMatch_topicKey_topic t t'
+        have m2 := e1 t'
+        simp only [abs, has_deleteTopicDB]; grind
+      · funext t' c; apply propext
+        have m1 := isMatch_chanKey_chanStar t t' c
+        have m2 := e2 t' c
+        simp only [abs, has_deleteTopicDB]; grind
+      · funext q t'; apply propext
+        have m1 := isMatch_topicKey_topic t t'
+        have m2 := e1 t'
+        simp only [abs, getP_deleteTopicDB]; grind
+      · funext q t' c; apply propext
+        have m1 := isMatch_chanKey_chanStar t t' c
+        have m2 := e2 t' c
+        simp only [abs, getP_deleteTopicDB]; grind
+      · funext q t' τ; apply propext
+        have m1 := isMatch_topicKey_topic t t'
+        have m2 := e1 t'
+        simp only [abs, getP_deleteTopicDB]; grind
+      · funext q
+        simp only [abs, getP_deleteTopicDB, e3, e4]; simp
+      · rfl
+
+theorem tombstonePM_eq (r : Registry) (pm : PMap) (node : Name) (now : Int) :
+    tombstonePM r pm node now =
+      pm.map (fun e => (e.1, (fun id tb => if nodeMatches r id node then (⟨true, now⟩ : Tomb) else tb) e.1 e.2)) := by
+  unfold tombstonePM
+  apply List.map_congr_left
+  intro e _
+  by_cases h : nodeMatches r e.1 node = true <;> simp [h]
+
+theorem has_tombstoneDB (r : Registry) (t node : Name) (now : Int) (ht : t ≠ star) (k' : Key) :
+    has (tombstoneDB r t node now) k' = has r.db k' := by
+  unfold tombstoneDB
+  simp only [ht, if_false]
+  cases hg : mget r.db (topicKey t) with
+  | none => rfl
+  | some pm =>
+    simp only [has, mget_mset]
+    by_cases hk : topicKey t = k'
+    · subst hk; simp [hg]
+    · simp [hk]
+
+theorem getP_tombstoneDB (r : Registry) (t node : Name) (now : Int) (ht : t ≠ star) (k' : Key) (q : Nat) :
+    getP (tombstoneDB r t node now) k' q =
+      if k' = topicKey t ∧ nodeMatches r q node = true then (getP r.db k' q).map (fun _ => ⟨true, now⟩)
+      else getP r.db k' q := by
+  unfold tombstoneDB
+  simp only [ht, if_false]
+  cases hg : mget r.db (topicKey t) with
+  | none =>
+    by_cases hk : k' = topicKey t
+    · subst hk; simp [getP, hg]
+    · simp [hk]
+  | some pm =>
+    simp only [getP, mget_mset]
+    by_cases hk : topicKey t = k'
+    · subst hk
+      simp only [if_true, Option.bind_some, hg, true_and]
+      rw [tombstonePM_eq, mget_map_val pm (fun id tb => if nodeMatches r id node then (⟨true, now⟩ : Tomb) else tb) q]
+      by_cases hn : nodeMatches r q node = true
+      · simp [hn]
+      · simp [hn]
+    · have : ¬ k' = topicKey t := fun h => hk h.symm
+      simp [hk, this]
+
+theorem nodeIs_abs (r : Registry) (q : Nat) (node : Name) :
+    (abs r).nodeIs q node ↔ nodeMatches r q node = true := by
+  unfold Spec.nodeIs nodeMatches
+  simp only [abs]
+  cases mget r.peers q with
+  | none => simp
+  | some pr => simp
+
+theorem abs_tombstone (r : Registry) (a : HttpArgs) (now : Int) (hm : a.topic ≠ some star) :
+    abs (tombstone r a now).1 = (abs r).tombstone a now := by
+  unfold tombstone Spec.tombstone
+  cases a.badQuery with
+  | true => rfl
+  | false =>
+    simp only [Bool.false_eq_true, if_false]
+    cases ht : a.topic with
+    | none => rfl
+    | some t =>
+      have hts : t ≠ star := by intro h; apply hm; rw [ht, h]
+      cases a.node with
+      | none => rfl
+      | some node =>
+        simp only
+        apply Spec.ext'
+        · funext t'; simp [abs, has_tombstoneDB _ _ _ _ hts]
+        · funext t' c; simp [abs, has_tombstoneDB _ _ _ _ hts]
+        · funext q t'; apply propext
+          simp only [abs, getP_tombstoneDB _ _ _ _ hts]
+          split <;> simp
+        · funext q t' c; apply propext
+          simp only [abs, getP_tombstoneDB _ _ _ _ hts, chanKey, topicKey]
+          simp
+        · funext q t' τ; apply propext
+          simp only [nodeIs_abs]
+          simp only [abs, getP_tombstoneDB _ _ _ _ hts, topicKey]
+          by_cases h1 : t' = t
+          · subst h1
+            by_cases h2 : nodeMatches r q node = true
+            · simp only [h2, and_self, if_true, true_and, not_true_eq_false, and_false, or_false]
+              cases hg : getP r.db { cat := .topic, key := t', sub := [] } q with
+              | none => simp
+              | some tb => simp; exact eq_comm
+            · simp [h2]
+          · simp [h1]
+        · funext q
+          simp only [abs, getP_tombstoneDB _ _ _ _ hts, clientKey, topicKey]
+          simp
+        · rfl
+
+/-! ### The refinement theorem -/
+
+theorem abs_step (r : Registry) (op : Op) (h : op.modelled = true) :
+    abs (step r op).1 = (abs r).step op := by
+  cases op with
+  | identify p info now => exact abs_identify r p info now
+  | register p params => exact abs_register r p params
+  | unregister p params => exact abs_unregister r p params
+  | ping p now => exact abs_ping r p now
+  | disconnect p => exact abs_disconnect r p
+  | createTopic a => exact abs_createTopic r a
+  | deleteTopic a => exact abs_deleteTopic r a
+  | createChannel a => exact abs_createChannel r a
+  | deleteChannel a => exact abs_deleteChannel r a
+  | tombstone a now =>
+    apply abs_tombstone r a now
+    simpa [Op.modelled] using h
+
+theorem abs_run (r : Registry) (ops : List Op) (h : ∀ op ∈ ops, op.modelled = true) :
+    abs (run r ops) = (abs r).run ops := by
+  induction ops generalizing r with
+  | nil => rfl
+  | cons op ops ih =>
+    simp only [run, Spec.run]
+    rw [ih _ (fun o ho => h o (List.mem_cons_of_mem _ ho)), abs_step r op (h op List.mem_cons_self)]
+
 end Nsq.Proofs.RegistryRefine
